@@ -274,11 +274,17 @@ func stripShape(ret *ssa.Return, recv ssa.Value) string {
 	}
 	f := ret.Parent()
 	t := newTB(nil)
+	// the event buffer: the receiver, its embedded binlogEvent, and what Bytes() returns for them
+	t.ssub[f.Params[0]] = "buf"
 	instrs(f, func(in ssa.Instruction) {
 		if c, ok := in.(*ssa.Call); ok {
 			if cal := c.Common().StaticCallee(); cal != nil && cal.Name() == "Bytes" {
 				t.names[c] = "buf"
+				t.ssub[c] = "buf"
 			}
+		}
+		if fl, ok := in.(*ssa.Field); ok && fl.X == ssa.Value(f.Params[0]) {
+			t.ssub[fl] = "buf"
 		}
 	})
 	term := t.sliceTerm(strip(stored))
